@@ -37,6 +37,7 @@ OBLIGATIONS = {
     "no_restart_between_batches": "a history ran two batches in the same process image",
     "odd_directory_name": "a data directory whose name contains glob metacharacters / spaces / non-ASCII / a .dat suffix",
     "crash_torn_record": "a crash left a torn (partial) record",
+    "real_scale": "megabyte-sized blocks against a 20 MiB limit",
     "long_history": "one history of 300 batches (more than 100 block files)",
     "io_error_points": "executions in which one open()/write() failed with ENOSPC and the process carried on",
     "crash_points": "crash points were met (open/write/flush/close intercepted)",
@@ -91,6 +92,11 @@ def materialise(path, layout):
         with open(os.path.join(path, f"blk{no:05d}.dat"), "wb") as f:
             f.write(data)
         files[no] = data
+    # file times are an environment answer: in a directory a restarted process finds, the modification times are NOT monotone
+    # in the file number (a restored backup, a touched old file) - the lowest-numbered file looks newest
+    for rank, no in enumerate(sorted(layout)):
+        t = 1_700_000_000 - rank * 3600
+        os.utime(os.path.join(path, f"blk{no:05d}.dat"), (t, t))
     return R.Store(files, 0), serial
 
 
@@ -541,6 +547,7 @@ def jobs(tier, seed):
         nsh = 8 if tier == "quick" else 16
         for k in range(nsh):
             js.append({"name": f"hist/L{L}/{k}", "part": "hist", "L": L, "shard": [k, nsh], "weight": 10})
+    js.append({"name": "real-scale", "part": "realscale", "L": 20 * 2 ** 20, "weight": 10})
     return js
 
 
@@ -661,6 +668,24 @@ def run_job(job):
                 acc.ob("long_history")
                 acc.check("history", case, chk_history)
         acc.states += acc.executions
+    elif part == "realscale":
+        # megabyte-sized blocks against a 20 MiB file limit (and, thorough, the library's own 128 MiB): thresholds tied to
+        # absolute sizes (write coalescing, chunked copies) are invisible at the 32-byte scale of the other jobs
+        M = 2 ** 20
+        hists = [[[M] * 24], [[M] * 17, [M] * 9], [[17 * M, M, M, M + 1]], [[L - 8, 1], [M]]]
+        if job["tier"] == "thorough":
+            hists.append([[M] * 130])
+        for hist in hists:
+            lim = L if len(hist[0]) < 100 else 128 * M
+            case = {"L": lim, "batches": hist, "restarts": [0] * (len(hist) - 1)}
+            acc.evaluations += sum(len(b) for b in hist)
+            acc.executions += 1
+            acc.transitions += len(hist)
+            acc.nontrivial += 1
+            acc.ob("real_scale")
+            acc.check("history", case, chk_history)
+        acc.states += acc.executions
+        acc.sample({"real_scale_limit": L, "histories": len(hists)})
     elif part == "crash":
         A = alphabet(L)
         root = roots(L)[job["root"]]
